@@ -50,3 +50,31 @@ Theorem C05_mapping_failure_is_undone : forall NB : nat, (0 < NB)%nat -> forall 
   (blk = 0%nat -> root' = root /\ d' = d /\ fr' = fr).
 Proof. exact indbmap_undo_ownership. Qed.
 Print Assumptions C05_mapping_failure_is_undone.
+
+(* AT (Model/AllocModel.v, Proofs/AllocProofs.v) — alloctxn/alloctxn.go over alloc.Alloc, for any number of interleaved
+   transactions that allocate, free, commit and abort: whenever no transaction runs, the in-memory allocator marks
+   exactly the numbers the on-disk bitmap marks (this is the relation R-alloc the harness evaluates after every RPC,
+   after recovery and on the twin); a commit makes exactly its allocations and frees durable and releases the freed
+   numbers in memory; a number allocated and given back inside one transaction is free in both afterwards
+   (PreCommit writes the allocation bits first and the free bits second). *)
+From stdpp Require Import gmap.
+From V Require Model.AllocModel Proofs.AllocProofs.
+Theorem C05_allocator_agrees_with_bitmap_when_quiescent : forall d os,
+  AllocModel.a_txns (AllocModel.aruns (AllocModel.a_init d) os) = ∅ ->
+  AllocModel.a_mem (AllocModel.aruns (AllocModel.a_init d) os) = AllocModel.a_disk (AllocModel.aruns (AllocModel.a_init d) os).
+Proof. exact AllocProofs.quiescent_agree_reachable. Qed.
+Print Assumptions C05_allocator_agrees_with_bitmap_when_quiescent.
+
+Theorem C05_commit_effect : forall s t tx s',
+  AllocModel.astep s (AllocModel.ACommit t) = Some s' -> AllocModel.a_txns s !! t = Some tx ->
+  (forall n, n ∈ AllocModel.a_disk s' <-> (n ∈ AllocModel.a_disk s \/ n ∈ AllocModel.t_al tx) /\ n ∉ AllocModel.t_fr tx) /\
+  (forall n, n ∈ AllocModel.a_mem s' <-> n ∈ AllocModel.a_mem s /\ n ∉ AllocModel.t_fr tx) /\
+  AllocModel.a_txns s' = delete t (AllocModel.a_txns s).
+Proof. exact AllocProofs.commit_effect. Qed.
+Print Assumptions C05_commit_effect.
+
+Theorem C05_allocated_and_given_back_is_free : forall s t tx s' n,
+  AllocModel.astep s (AllocModel.ACommit t) = Some s' -> AllocModel.a_txns s !! t = Some tx ->
+  n ∈ AllocModel.t_al tx -> n ∈ AllocModel.t_fr tx -> n ∉ AllocModel.a_disk s' /\ n ∉ AllocModel.a_mem s'.
+Proof. exact AllocProofs.alloc_then_free_is_free. Qed.
+Print Assumptions C05_allocated_and_given_back_is_free.
